@@ -50,6 +50,93 @@ func instrIndex(in ssa.Instruction) int {
 	return -1
 }
 
+// allocName names a local variable independently of its source name: var(<type>) when it is the
+// only (surviving) local of that type in its function, var(<type>#k) otherwise, k = order of
+// appearance.  A renamed local therefore renders the same.
+var allocNames = map[*ssa.Function]map[*ssa.Alloc]string{}
+
+func allocName(a *ssa.Alloc) string {
+	fn := a.Parent()
+	m, ok := allocNames[fn]
+	if !ok {
+		m = map[*ssa.Alloc]string{}
+		byType := map[string][]*ssa.Alloc{}
+		var order []string
+		for _, b := range fn.Blocks {
+			for _, in := range b.Instrs {
+				if al, ok := in.(*ssa.Alloc); ok {
+					switch al.Comment {
+					case "varargs", "complit", "slicelit", "arraylit", "makeslice", "new", "":
+						// compiler-made temporaries: keep their role name (adding a log line must not renumber them)
+						m[al] = "var(" + al.Comment + ")"
+						continue
+					}
+					t := "?"
+					if pt, ok := al.Type().Underlying().(*types.Pointer); ok {
+						t = short(types.TypeString(pt.Elem(), nil))
+					}
+					if _, seen := byType[t]; !seen {
+						order = append(order, t)
+					}
+					byType[t] = append(byType[t], al)
+				}
+			}
+		}
+		for _, t := range order {
+			as := byType[t]
+			for i, al := range as {
+				if len(as) == 1 {
+					m[al] = "var(" + t + ")"
+				} else {
+					m[al] = fmt.Sprintf("var(%s#%d)", t, i)
+				}
+			}
+		}
+		allocNames[fn] = m
+	}
+	if n, ok := m[a]; ok {
+		return n
+	}
+	return "var(" + a.Comment + ")"
+}
+
+// freeVarAlloc: the local variable of the enclosing function that a closure's free variable is bound to.
+func freeVarAlloc(cl *ssa.Function, fv *ssa.FreeVar) *ssa.Alloc {
+	parent := cl.Parent()
+	if parent == nil {
+		return nil
+	}
+	idx := -1
+	for i, f := range cl.FreeVars {
+		if f == fv {
+			idx = i
+		}
+	}
+	if idx < 0 {
+		return nil
+	}
+	for _, b := range parent.Blocks {
+		for _, in := range b.Instrs {
+			if mc, ok := in.(*ssa.MakeClosure); ok && mc.Fn == ssa.Value(cl) {
+				switch x := mc.Bindings[idx].(type) {
+				case *ssa.Alloc:
+					return x
+				case *ssa.FreeVar:
+					return freeVarAlloc(parent, x)
+				}
+			}
+		}
+	}
+	return nil
+}
+
+func freeVarName(fn *ssa.Function, fv *ssa.FreeVar) string {
+	if a := freeVarAlloc(fn, fv); a != nil {
+		return "^" + allocName(a)
+	}
+	return "^" + fv.Name()
+}
+
 // reachingStore finds the value held by a local variable (Alloc) when read at `at`.
 func reachingStore(a *ssa.Alloc, at ssa.Instruction) ssa.Value {
 	var stores []*ssa.Store
@@ -157,7 +244,7 @@ func (R *Renderer) render(v ssa.Value) string {
 		}
 		return "$?"
 	case *ssa.FreeVar:
-		return "^" + x.Name()
+		return freeVarName(R.fn, x)
 	case *ssa.Global:
 		return "global:" + short(x.String())
 	case *ssa.Function:
@@ -165,7 +252,7 @@ func (R *Renderer) render(v ssa.Value) string {
 	case *ssa.Builtin:
 		return "builtin:" + x.Name()
 	case *ssa.Alloc:
-		return "&var(" + x.Comment + ")"
+		return "&" + allocName(x)
 	case *ssa.UnOp:
 		switch x.Op {
 		case token.MUL:
@@ -187,7 +274,7 @@ func (R *Renderer) render(v ssa.Value) string {
 					name = st.Field(x.Field).Name()
 				}
 			}
-			return "&var(" + a.Comment + ")." + name
+			return "&" + allocName(a) + "." + name
 		}
 		return "&" + R.fieldOf(x.X, x.Field, x)
 	case *ssa.Field:
@@ -329,7 +416,7 @@ func (R *Renderer) fieldOf(base ssa.Value, field int, at ssa.Instruction) string
 				return R.V(val) + "." + name
 			}
 		}
-		return "var(" + a.Comment + ")." + name
+		return allocName(a) + "." + name
 	}
 	return strings.TrimPrefix(R.V(base), "&") + "." + name
 }
@@ -346,7 +433,7 @@ func (R *Renderer) load(x *ssa.UnOp) string {
 				return R.V(val)
 			}
 		}
-		return "var(" + a.Comment + ")"
+		return allocName(a)
 	case *ssa.Global:
 		return short(a.String())
 	case *ssa.FreeVar:
@@ -354,6 +441,9 @@ func (R *Renderer) load(x *ssa.UnOp) string {
 		if val := resolveFreeVar(R.fn, a); val != nil {
 			pr := NewRenderer(R.fn.Parent())
 			return "^" + pr.V(val)
+		}
+		if al := freeVarAlloc(R.fn, a); al != nil {
+			return "^" + allocName(al)
 		}
 		return "^var(" + a.Name() + ")"
 	}
